@@ -46,7 +46,7 @@ MAP = [
     ("h263/src/parser/block.rs", ["C11", "C02", "C03", "C01"]),
     ("h263/src/parser/gob.rs", ["C06", "C15", "C01"]),
     ("h263/src/parser/vlc.rs", ["C14", "C11", "C02", "C01"]),
-    ("h263/src/types.rs", ["C12", "C06", "C11", "C03", "C01"]),
+    ("h263/src/types.rs", ["C12", "C06", "C11", "C13", "C03", "C01"]),
 ]
 
 OPS = [
@@ -71,8 +71,16 @@ def code_lines(path):
     depth = 0
     out = []
     pending_verif = False
+    in_block_comment = False
     for i, line in enumerate(lines):
         st = line.strip()
+        if in_block_comment:
+            if "*/" in st:
+                in_block_comment = False
+            continue
+        if st.startswith("/*") and "*/" not in st:
+            in_block_comment = True
+            continue
         if st.startswith("#[cfg(test)]"):
             in_tests = True
         if in_tests:
